@@ -30,14 +30,14 @@ CLAIMS = {
             "A constant-level use of TLA+ (a layout definition evaluated on data), not a behavioural model.",
             "DESIGN.md section 3 C17"),
     "C15": ("model_checking",
-            "sequential TLA+ specification of the byte stores (MemIO) model-checked by TLC + operation sequences recorded from the real types validated by TLC",
+            "sequential TLA+ specification of the byte stores (MemIO) model-checked by TLC + tlc -simulate behaviours replayed on the real types (P) + operation sequences recorded from the real types validated by TLC (T)",
             "TLC exhaustively explores operation sequences of the MemIO specification over boundary lengths/addresses with "
             "its invariants; random and boundary-biased sequences of Get/Set/Put/In/Out/Clone/Clear/Equal over all slice "
             "lengths are executed on the real DumbMemory/DumbIO/MapMemory values and every result is validated by TLC.",
             "Random exploration of histories; DumbMemory.Put only inside the slice (stated precondition).",
             "DESIGN.md section 3 C15"),
     "C13": ("model_checking",
-            "PlusCal/TLA+ goroutine model of Run's cancellation hand-off (TLC: safety + liveness, negative variant) + -race stress with goroutine accounting + hook-gated promptness + TLC validation of cancelled Run events",
+            "PlusCal/TLA+ goroutine model of Run's cancellation hand-off (TLC: safety + liveness, negative variant) + forced schedules recorded at the verif hooks and validated against the model (RunCancelTrace) + -race stress with goroutine accounting + TLC validation of cancelled Run events",
             "TLC exhaustively checks RunCancel.tla (every interleaving of caller, watcher and runner) for the safety and "
             "liveness properties behind the statement, and that removing the deferred cancel() is caught. The real Run is "
             "stressed in a -race build over program kinds x cancellation instants with checks of the returned error, a 2 s "
@@ -47,7 +47,7 @@ CLAIMS = {
             "refactoring removes the hooks the hook tier reports 'not applicable' and the black-box tier alone decides.",
             "DESIGN.md section 3 C13"),
     "C10": ("model_checking",
-            "snapshot/rebuild at every Step boundary with TLC carrying the state + bit-identical twin + parallel CPUs under the Go race detector, every trace validated by TLC",
+            "snapshot/rebuild at every Step boundary with TLC carrying the state + bit-identical twin + memory replacement + long-run twin (2e7 Steps) + parallel CPUs under the Go race detector, every trace validated by TLC",
             "Programs of all instruction classes are stepped while the CPU object is rebuilt from copies of States, memory and "
             "the pending request before almost every Step; the TLA+ trace specification carries its own state across the run "
             "(hidden state shows up as a rejected Step) and a never-rebuilt twin must stay bit-identical. 2..16 CPUs run from "
@@ -74,7 +74,10 @@ CLAIMS = {
             "reported as KNOWN-FINDING via the named outcome 'INT0 as-coded'; any other non-transparency is a violation.",
             "DESIGN.md section 3 C07"),
     "C06": ("model_checking",
-            "TLA+ interrupt logic (Z80Int: named acceptance/refusal outcomes) + TLC trace validation of the control-bit matrix and of request/instruction histories",
+            "TLA+ interrupt logic (Z80Int: named outcomes) model-checked by TLC (MC_Int, action properties) with every sampled explored edge replayed on the real CPU (G) + TLC trace validation of the control-bit matrix and of request/instruction histories (T)",
+            "TLC explores MC_Int (control bits x request kinds x EI/DI/RETN/RETI/HALT/IM alphabet, 2.8e5 states quick) checking "
+            "MaskableOnlyIfEnabled, NmiAlways, RefusedStays, Dispatch, Handlers, FlipFlops, NoInstrOnAccept; the explored edges "
+            "carry the allowed outcomes and are executed on the real CPU. "
             "The complete matrix of request kind x mode x IFF1 x IFF2 x halted/running x PC/SP placement and random histories "
             "of EI/DI/RETN/RETI/HALT/IM with requests raised at arbitrary points (nesting, raised while disabled) are executed "
             "on the real CPU; TLC validates every Step against StepSet (acceptance iff IFF1, flip-flops, pushed PC, dispatch "
@@ -110,7 +113,10 @@ CLAIMS = {
             "TLA+ instruction-set specification (Z80Core/Z80Int) + TLC trace validation of recorded real Steps",
             "Every recorded CPU.Step is judged by TLC against StepSet of the TLA+ specification on the whole architectural "
             "state (registers minus R, HALT, memory image, bytes sent to ports). All 7x256 decode points are driven from a "
-            "structured pre-state catalogue (wrap, overlap, flag patterns, IFF/IM) and from biased-random states.",
+            "structured pre-state catalogue (wrap, overlap, flag patterns, IFF/IM) and from biased-random states; further "
+            "stages: a coverage-guided corpus (go test -fuzz, every kept input validated by TLC), the whole run of prelim.cim "
+            "and windows of zexdoc/zexall on the mini CP/M machine, the real DumbMemory/MapMemory types attached directly, "
+            "and Run/Step sequences across replacements of CPU.Memory.",
             "Exhaustive over decode points, structured + random over pre-states (the ALU-shaped part is complete in C02/C03). "
             "Trusts TLC, the transcription of the instruction set into Z80Core.tla and the recording devices.",
             "DESIGN.md section 3 C01"),
@@ -125,7 +131,9 @@ CLAIMS = {
             "TLA+ bus micro-operations + TLC trace validation of per-Step access logs recorded by Memory/IO wrappers",
             "Recording Memory/IO devices log every access of every Step; TLC compares the multiset of reads, the multiset of "
             "(address,value) writes and the port log with the specification's micro-operations for all decode points, taken "
-            "and untaken conditional forms, pointers at the wrap and on the instruction bytes.",
+            "and untaken conditional forms, pointers at the wrap and on the instruction bytes; histories in which CPU.Memory "
+            "is replaced between Steps (the device attached now sees exactly the accesses) and the real memory types "
+            "attached directly (contents compared).",
             "Exhaustive over decode points; pre-states structured + random. Access order within a Step is not compared.",
             "DESIGN.md section 3 C05"),
     "C11": ("model_checking",
